@@ -62,6 +62,17 @@ Definition chk_cei (c : cei_case) : bool :=
   fclose tv (cei_head O C means std bests mcs sc) v1 && fclose tv (k_hval g) v2 &&
   fclose_list tm (k_dmean g) dm && fclose_list ts (k_dstd g) ds &&
   fclose_list tmc (k_dmean_c g) dmc && fclose_list tsc (k_dstd_c g) dsc.
+(* HyperTune ensemble: levels (theta, mu, var) at x; per input coordinate the (theta, dmu, dvar); head gradients
+   and de-normalisation (hg_mean, hg_std, mean_data, std_data); implementation's ensemble (mean, var) and its
+   backward_gradient; tolerances *)
+Definition ens_case := (list (float * float * float) * list (list (float * float * float)) *
+                        (float * float * float * float) * (float * float) * list float * (float * float * float))%type.
+Definition chk_ens (c : ens_case) : bool :=
+  let '(lv, dls, (hgm, hgs, md, sd), (m, v), grad, (tm, tv, tg)) := c in
+  let O := FOps [] [] [] in
+  let p := ens_predict O lv in
+  fclose tm (fst p) m && fclose tv (snd p) v &&
+  fclose_list tg (map (fun dl => ens_backward O lv dl hgm hgs sd) dls) grad.
 """
 
 CHOL_IMPORTS = ("From Coq Require Import Floats.\nFrom Verif Require Import model.Base model.CholBackward.\n"
@@ -1004,6 +1015,7 @@ def run_hypertune(ctx, specs):
     from syne_tune.optimizer.schedulers.searchers.bayesopt.models.gp_model import GaussProcPredictor
     from syne_tune.optimizer.schedulers.searchers.bayesopt.utils.test_objects import create_tuning_job_state
     levels, rrange = [1, 3, 9], (1, 9)
+    ens_cases = []
     for spec in specs:
         case = dict(kind="hypertune", spec=spec)
         rs = np.random.RandomState(spec["seed"])
@@ -1033,6 +1045,35 @@ def run_hypertune(ctx, specs):
                                             metrics=[{INTERNAL_METRIC_NAME: float(i)} for i in range(len(cands))])
             pred = GaussProcPredictor(state=state, gpmodel=gm, fantasy_samples=[], active_metric=INTERNAL_METRIC_NAME,
                                       normalize_mean=spec["norm_mean"], normalize_std=spec["norm_std"])
+            # correspondence of model/AcqHead.v ens_predict / ens_backward with the real posterior state: per-level
+            # predictions and per-level input gradients (public state(resource).predict / .backward_gradient with unit
+            # head gradients) go into the model, the ensemble's own predict / backward_gradient are the observations
+            pst = gm.states[0]
+            xq = rs.uniform(0.1, 0.9, size=d)
+            hgm, hgs, md, sd = rs.normal(), rs.normal(), rs.normal(), rs.uniform(0.5, 2.0)
+            lv, dcols = [], [[] for _ in range(d)]
+            for r, th in pst.ensemble_distribution.items():
+                st = pst.state(r)
+                mu, var = st.predict(xq.reshape(1, -1))
+                mu, var = float(np.asarray(mu).reshape(-1)[0]), float(np.asarray(var).reshape(-1)[0])
+                dmu = np.asarray(st.backward_gradient(xq, {"mean": np.array([1.0])}, 0.0, 1.0), dtype=float).reshape(-1)
+                dsd = np.asarray(st.backward_gradient(xq, {"mean": np.array([0.0]), "std": np.array([1.0])}, 0.0, 1.0),
+                                 dtype=float).reshape(-1)
+                lv.append((float(th), mu, var))
+                for i in range(d):
+                    dcols[i].append((float(th), float(dmu[i]), float(2.0 * np.sqrt(var) * dsd[i])))
+            em, ev = pst.predict(xq.reshape(1, -1))
+            em, ev = float(np.asarray(em).reshape(-1)[0]), float(np.asarray(ev).reshape(-1)[0])
+            eg = np.asarray(pst.backward_gradient(xq, {"mean": np.array([hgm]), "std": np.array([hgs])}, md, sd),
+                            dtype=float).reshape(-1)
+            trip = lambda t: "(%s, %s, %s)" % (fl(t[0]), fl(t[1]), fl(t[2]))
+            gscale = max(1e-300, float(np.abs(eg).max()),
+                         max(abs(hgm * sd * t[0] * t[1]) + abs(hgs * sd * t[0] ** 2 * t[2] / (2 * np.sqrt(ev))) for c in dcols for t in c))
+            ens_cases.append(("(%s, %s, (%s, %s, %s, %s), (%s, %s), %s, (%s, %s, %s))" % (
+                lst([trip(t) for t in lv]), lst([lst([trip(t) for t in c]) for c in dcols]),
+                fl(hgm), fl(hgs), fl(md), fl(sd), fl(em), fl(ev), fll(eg),
+                fl(1e-13 * max(1.0, sum(abs(t[0] * t[1]) for t in lv))), fl(1e-13 * max(1e-300, ev) * 10), fl(1e-8 * gscale)),
+                dict(kind="hypertune", spec=spec)))
             acq = (M.EIAcquisitionFunction(pred, jitter=spec["jitter"]) if spec["head"] == "ei"
                    else M.LCBAcquisitionFunction(pred, kappa=spec["kappa"]))
             x = rs.uniform(0.1, 0.9, size=d)
@@ -1058,6 +1099,11 @@ def run_hypertune(ctx, specs):
                                       case=case, signature=dict(function="compute_acq_with_gradient", head=spec["head"],
                                                                 predictor="hypertune ensemble", defect="input_gradient_relative",
                                                                 ensemble_levels=len(spec["theta"])))
+    if ens_cases:
+        for i in ctx.coq_bad_cases("ens", HEAD_IMPORTS, HEAD_PRELUDE, "chk_ens", [t for t, _ in ens_cases], shard=120):
+            ctx.violation("correspondence", "model ens_predict / ens_backward differs from HyperTuneIndependentGPPosteriorState "
+                          "predict / backward_gradient", case=ens_cases[i][1], failing_input=False,
+                          broken="correspondence chk_ens (model/AcqHead.v ens_predict, ens_backward)")
 
 
 # --------------------------------------------------------------------------
